@@ -77,6 +77,11 @@ def run_shard(desc):
                 # prime palette for even orientation masks, Gaussian-rational (complex) palette for odd ones
                 nl = cm.build_netlist(topo, kt, orient, ref_idx, labels, "real" if orient % 2 == 0 else "cplx", sp.IDS_ASC[:b])
                 explore(nl, [], depth, res, seen)
+        if b >= 2 and n <= 3:
+            # twin elements: equal values everywhere, so that elements differ by their names only
+            for orient in (0, 2 ** b - 1, 1):
+                nl = cm.build_netlist(topo, kt, orient, 0, sp.LABELS_PLAIN[:n], "eq", sp.IDS_ASC[:b])
+                explore(nl, [], depth, res, seen)
     return res
 
 
